@@ -22,7 +22,7 @@ type ShimProfile struct {
 }
 
 // AllKeyIDClasses lists every KeyID class of the generator.
-var AllKeyIDClasses = []string{"ysshca0", "ysshca1", "ysshca2", "ysshca3", "ysshca4", "ysshca5", "ysshca6", "ysshca7", "ysshca8", "missing", "version", "inconsistent", "text", "empty"}
+var AllKeyIDClasses = []string{"ysshca0", "ysshca1", "ysshca2", "ysshca3", "ysshca4", "ysshca5", "ysshca6", "ysshca7", "ysshca8", "ysshca9", "missing", "version", "inconsistent", "text", "empty"}
 
 func isRSAName(k string) bool { return strings.HasPrefix(k, "rsa") }
 
